@@ -55,14 +55,6 @@ for fn, nm, path, sym in COPYFAM:
           defines=['FN=%d' % fn, 'N=4', 'LAYOUT=%d' % lay], unwind=12, object_bits=10, replay=True,
           functions=[sym], bound='extents <= 4 elements, arena <= 10 elements, layout %s' % ('one arena (all placements)' if lay == 0 else 'separate exact-fit objects'),
           timeout=900, mem_gb=8)
-for fam, common, wide in ((COPYFAM, STR_COMMON, False), (WCOPYFAM, WCS_COMMON, True)):
-    for fn, nm, path, sym in fam:
-        for d in (0, 1):
-            J('B.%s.big%d' % (nm, d), COPY_PROPS, 'B', 'harness/copyfam.c', sources=[path] + common,
-              defines=['FN=%d' % fn, 'N=2', 'BIG', 'BIGDIR=%d' % d, 'LAYOUT=0'] + (['WIDE'] if wide else []), unwind=48, object_bits=10, replay=True,
-              functions=[sym], stubs=(['stubs/memset_model.c'] if wide else []), timeout=1200, mem_gb=10,
-              quick_props=['C08', 'C06'],
-              bound='dmax 33..38 (across the 0x20 memset switch), strings <= 2, dest %s src at fixed offsets of one 44-element arena' % ('below' if d == 0 else 'above'))
 for fn, nm, path, sym in WCOPYFAM:
     for lay in (0, 1):
         J('B.%s.L%d' % (nm, lay), COPY_PROPS, 'B', 'harness/copyfam.c', sources=[path] + WCS_COMMON,
@@ -161,7 +153,7 @@ MEMFAM = [
 for fn, nm, path in MEMFAM:
     props = ['C01', 'C02', 'C05', 'C06'] + (['C18'] if fn <= 6 else ['C04', 'C07'])
     J('C.%s' % nm, props, 'C', 'harness/memfam.c', sources=[path, PRIM] + MEM_COMMON, defines=['FN=%d' % fn],
-      replace=PRIMS, replay=True, functions=['_%s_chk' % nm], timeout=900, mem_gb=8,
+      replace=PRIMS, replay=True, functions=['_%s_chk' % nm], timeout=900, mem_gb=8, trace_defines=['ASZ_LOG=12'],
       quick_props=(None if nm in ('memset_s', 'memcpy_s', 'memmove_s') else [p for p in props if p not in ('C01', 'C02')]),
       note='loop-free wrapper, all sizes symbolic (64-bit), arena of symbolic size <= 2^30; mem_prim_* replaced by contracts (include/prim_contracts.h) which are checked bounded by B.mem_prim_*',
       assumptions=['callee contracts of mem_prim_set*/mem_prim_move* (prim_contracts.h) are checked only bounded, by enumeration (jobs B.mem_prim_*)',
